@@ -7,7 +7,7 @@
  *
  * Modes
  *   oom unit                      line protocol on stdin/stdout (verb OOM, see below)
- *   oom conv <w2x|x2w> <file> <optset> <single|pairs> [maxpairs]
+ *   oom conv <w2x|x2w> <file> <optset> <single|pairs> [maxruns [kfrom [kto]]]
  *                                 the k-loop of the conversion-level oracle for one document
  */
 #include "hx.h"
@@ -235,12 +235,14 @@ static void dump_stderr_tail(int fd, const char *tag)
 static int conv_main(int argc, char **argv)
 {
     int dir, optset, pairs; size_t n; unsigned char *doc;
-    unsigned long maxruns = 0, start_k1 = 1, start_k2 = 0, restarts = 0, crashes = 0;
+    unsigned long maxruns = 0, start_k1 = 1, start_k2 = 0, restarts = 0, crashes = 0, end_k1 = 0;
     if (argc < 6) { fprintf(stderr, "usage: oom conv <w2x|x2w> <file> <optset> <single|pairs> [maxruns]\n"); return 2; }
     dir = strcmp(argv[2], "x2w") == 0;
     optset = atoi(argv[4]) % N_OPTS;
     pairs = strcmp(argv[5], "pairs") == 0;
     if (argc > 6) maxruns = strtoul(argv[6], NULL, 10);
+    if (argc > 7) start_k1 = strtoul(argv[7], NULL, 10);
+    if (argc > 8) end_k1 = strtoul(argv[8], NULL, 10);
     doc = read_file(argv[3], &n);
     if (!doc) { printf("NOFILE %s\n", argv[3]); return 2; }
     oom_on_fail = publish_fail;
@@ -281,7 +283,7 @@ static int conv_main(int argc, char **argv)
                     print_blocks(stdout); printf("\n"); }
             }
             oom_reset();
-            for (k1 = start_k1; k1 <= N; k1++) {
+            for (k1 = start_k1; k1 <= N && (!end_k1 || k1 <= end_k1); k1++) {
                 unsigned long n1;
                 if (!(pairs && k1 == start_k1 && start_k2)) {
                     n1 = one_run(dir, optset, doc, n, k1, 0);
@@ -336,8 +338,305 @@ static int conv_main(int argc, char **argv)
     return 0;
 }
 
-/* ------------------------------------------------------------------ unit level (verb OOM) */
-static int unit_main(void) { return 0; }
+/* ------------------------------------------------------------------ unit level (verb OOM)
+ *
+ * Request lines (see lean/Driver/Alloc.lean for the model side):
+ *   OOM U <k1> <k2> <op> <op> ...        container / element op machine (public API only)
+ *   OOM P <k1> <k2> <tag> <attrs>        parse_element() on the bytes built from the shapes
+ *   OOM S <k1> <k2> <texts>              wbxml_strtbl_initialize() on a tree with these text nodes
+ *   OOM T <k1> <k2> <strtbl> <ver> <pubid> <tree> <chunks>   wbxml_tree_to_wbxml() on an element-only tree
+ * Response: R <results> | req=<requests> hits=<failures delivered> live=<blocks more than before>
+ *           fault=<ledger fault> | <canonical state>
+ * k1/k2 = request numbers (counted from the start of the observed call) that fail; 0 = none.
+ */
+static const WBXMLLangEntry *U_lang;
+
+#define NB 8
+#define NL 4
+#define NT 4
+#define NA 4
+#define NO 2
+static WBXMLBuffer *ub[NB]; static int ub_static[NB];
+static WBXMLList *ul[NL], *um[NL];
+static WBXMLTag *ut[NT];
+static WBXMLAttributeName *un[NT];
+static WBXMLAttribute *ua[NA];
+static WBXMLTreeNode *uo[NO];
+
+static void put_tail(unsigned long live0)
+{
+    printf("req=%lu hits=%lu live=%ld fault=%s", oom.req, oom.hits, (long)oom.live_blocks - (long)live0, oom_fault_name[oom.fault]);
+}
+
+static void put_buf(WBXMLBuffer *b) { hx_out(stdout, wbxml_buffer_get_cstr(b), wbxml_buffer_len(b)); }
+
+static void put_tagname(int type, const void *tok, const void *base, size_t esz, WBXMLBuffer *lit)
+{
+    if (type == WBXML_VALUE_TOKEN) printf("T%ld", (long)(((const char *)tok - (const char *)base) / (long)esz));
+    else if (lit == NULL) printf("LN");
+    else { printf("L"); put_buf(lit); }
+}
+
+static void put_attr(WBXMLAttribute *a)
+{
+    printf("(");
+    if (a->name == NULL) printf("N");
+    else put_tagname(a->name->type, a->name->u.token, U_lang->attrTable, sizeof(WBXMLAttrEntry), a->name->type == WBXML_VALUE_LITERAL ? a->name->u.literal : NULL);
+    printf(";");
+    if (a->value == NULL) printf("N"); else put_buf(a->value);
+    printf(")");
+}
+
+static int slot(const char *s, int max) { int v = atoi(s); return (v >= 0 && v < max) ? v : 0; }
+
+static void do_U(char **t, int nt)
+{
+    int i, first = 1; unsigned long live0;
+    memset(ub, 0, sizeof ub); memset(ub_static, 0, sizeof ub_static); memset(ul, 0, sizeof ul); memset(um, 0, sizeof um);
+    memset(ut, 0, sizeof ut); memset(un, 0, sizeof un); memset(ua, 0, sizeof ua); memset(uo, 0, sizeof uo);
+    oom_reset();
+    live0 = oom.live_blocks;
+    oom_window(strtoul(t[2], NULL, 10), strtoul(t[3], NULL, 10));
+    printf("R");
+    for (i = 4; i < nt; i++) {
+        char *f[6]; int nf = 0; char *p = t[i], *q; const char *res = "BAD"; char tmp[32];
+        while (nf < 6 && (q = strchr(p, '.'))) { *q = 0; f[nf++] = p; p = q + 1; }
+        if (nf < 6) f[nf++] = p;
+        (void)first;
+#define IS(name, n) (strcmp(f[0], name) == 0 && nf == (n))
+        if (IS("bc", 4)) { int d = slot(f[1], NB); size_t n; unsigned char *x = NULL;
+            if (strcmp(f[2], "N")) x = hx_unhex(f[2], &n); else n = 0;
+            ub[d] = wbxml_buffer_create_real(x, (WB_ULONG)n, (WB_ULONG)atoi(f[3])); ub_static[d] = 0; free(x); res = ub[d] ? "P" : "0"; }
+        else if (IS("bs", 3)) { int d = slot(f[1], NB); size_t n; unsigned char *x = hx_unhex(f[2], &n);
+            /* the aliased bytes must outlive the buffer: leaked on purpose (plain malloc, not ledgered) */
+            ub[d] = wbxml_buffer_sta_create_real(x, (WB_ULONG)n); ub_static[d] = 1; res = ub[d] ? "P" : "0"; }
+        else if (IS("bx", 2)) { int d = slot(f[1], NB); wbxml_buffer_destroy(ub[d]); ub[d] = NULL; res = "v"; }
+        else if (IS("bap", 3)) { int d = slot(f[1], NB); if (!ub[d]) res = "-"; else { size_t n; unsigned char *x = hx_unhex(f[2], &n);
+            res = wbxml_buffer_append_data_real(ub[d], x, (WB_ULONG)n) ? "T" : "F"; free(x); } }
+        else if (IS("bac", 3)) { int d = slot(f[1], NB); size_t n; unsigned char *x = hx_unhex(f[2], &n);
+            if (!ub[d] || n != 1) res = "-"; else res = wbxml_buffer_append_char(ub[d], x[0]) ? "T" : "F"; free(x); }
+        else if (IS("bab", 3)) { int d = slot(f[1], NB); if (!ub[d]) res = "-"; else {
+            WBXMLBuffer *src = strcmp(f[2], "N") ? ub[slot(f[2], NB)] : NULL; res = wbxml_buffer_append(ub[d], src) ? "T" : "F"; } }
+        else if (IS("bic", 4)) { int d = slot(f[1], NB); if (!ub[d]) res = "-"; else { size_t n; unsigned char *x = hx_unhex(f[3], &n);
+            res = wbxml_buffer_insert_cstr(ub[d], x, (WB_ULONG)atoi(f[2])) ? "T" : "F"; free(x); } }
+        else if (IS("bd", 3)) { int d = slot(f[1], NB); ub[d] = wbxml_buffer_duplicate(ub[slot(f[2], NB)]); ub_static[d] = 0; res = ub[d] ? "P" : "0"; }
+        else if (IS("lc", 2)) { int d = slot(f[1], NL); ul[d] = wbxml_list_create_real(); res = ul[d] ? "P" : "0"; }
+        else if (IS("la", 3)) { int d = slot(f[1], NL); if (!ul[d]) res = "-"; else res = wbxml_list_append(ul[d], (void *)(uintptr_t)atoi(f[2])) ? "T" : "F"; }
+        else if (IS("li", 4)) { int d = slot(f[1], NL); if (!ul[d]) res = "-"; else res = wbxml_list_insert(ul[d], (void *)(uintptr_t)atoi(f[2]), (WB_ULONG)atoi(f[3])) ? "T" : "F"; }
+        else if (IS("le", 2)) { int d = slot(f[1], NL); if (!ul[d]) res = "-"; else { snprintf(tmp, sizeof tmp, "%lu", (unsigned long)(uintptr_t)wbxml_list_extract_first(ul[d])); res = tmp; } }
+        else if (IS("lx", 2)) { int d = slot(f[1], NL); wbxml_list_destroy(ul[d], NULL); ul[d] = NULL; res = "v"; }
+        else if (IS("mc", 2)) { int d = slot(f[1], NL); um[d] = wbxml_list_create_real(); res = um[d] ? "P" : "0"; }
+        else if (IS("ma", 3)) { int d = slot(f[1], NL), b = slot(f[2], NB); if (!um[d] || !ub[b]) res = "-"; else {
+            if (wbxml_list_append(um[d], ub[b])) { ub[b] = NULL; res = "T"; } else res = "F"; } }
+        else if (IS("me", 3)) { int d = slot(f[1], NL), b = slot(f[2], NB); if (!um[d] || ub[b]) res = "-"; else {
+            ub[b] = wbxml_list_extract_first(um[d]); ub_static[b] = 0; res = ub[b] ? "P" : "0"; } }
+        else if (IS("mx", 2)) { int d = slot(f[1], NL); wbxml_list_destroy(um[d], wbxml_buffer_destroy_item); um[d] = NULL; res = "v"; }
+        else if (IS("tl", 3) || IS("nl", 3)) { int d = slot(f[1], NT); size_t n = 0; unsigned char *x = strcmp(f[2], "N") ? hx_unhex(f[2], &n) : NULL;
+            if (f[0][0] == 't') { ut[d] = wbxml_tag_create_literal(x); res = ut[d] ? "P" : "0"; }
+            else { un[d] = wbxml_attribute_name_create_literal(x); res = un[d] ? "P" : "0"; } free(x); }
+        else if (IS("tt", 3)) { int d = slot(f[1], NT); ut[d] = wbxml_tag_create_token(&U_lang->tagTable[atoi(f[2])]); res = ut[d] ? "P" : "0"; }
+        else if (IS("nt", 3)) { int d = slot(f[1], NT); un[d] = wbxml_attribute_name_create_token(&U_lang->attrTable[atoi(f[2])]); res = un[d] ? "P" : "0"; }
+        else if (IS("td", 3)) { int d = slot(f[1], NT); ut[d] = wbxml_tag_duplicate(ut[slot(f[2], NT)]); res = ut[d] ? "P" : "0"; }
+        else if (IS("nd", 3)) { int d = slot(f[1], NT); un[d] = wbxml_attribute_name_duplicate(un[slot(f[2], NT)]); res = un[d] ? "P" : "0"; }
+        else if (IS("tx", 2)) { int d = slot(f[1], NT); wbxml_tag_destroy(ut[d]); ut[d] = NULL; res = "v"; }
+        else if (IS("nx", 2)) { int d = slot(f[1], NT); wbxml_attribute_name_destroy(un[d]); un[d] = NULL; res = "v"; }
+        else if (IS("ac", 2)) { int d = slot(f[1], NA); ua[d] = wbxml_attribute_create(); res = ua[d] ? "P" : "0"; }
+        else if (IS("as", 4)) { int d = slot(f[1], NA); if (!ua[d] || ua[d]->name || ua[d]->value) res = "-"; else {
+            if (strcmp(f[2], "N")) { int x = slot(f[2], NT); ua[d]->name = un[x]; un[x] = NULL; }
+            if (strcmp(f[3], "N")) { int x = slot(f[3], NB); ua[d]->value = ub[x]; ub[x] = NULL; }
+            res = "v"; } }
+        else if (IS("ad", 3)) { int d = slot(f[1], NA); ua[d] = wbxml_attribute_duplicate(ua[slot(f[2], NA)]); res = ua[d] ? "P" : "0"; }
+        else if (IS("ax", 2)) { int d = slot(f[1], NA); wbxml_attribute_destroy(ua[d]); ua[d] = NULL; res = "v"; }
+        else if (IS("oc", 2)) { int d = slot(f[1], NO); uo[d] = wbxml_tree_node_create(WBXML_TREE_ELEMENT_NODE); res = uo[d] ? "P" : "0"; }
+        else if (IS("oa", 3)) { int d = slot(f[1], NO), a = slot(f[2], NA); if (!uo[d] || !ua[a]) res = "-"; else {
+            snprintf(tmp, sizeof tmp, "%d", (int)wbxml_tree_node_add_attr(uo[d], ua[a])); res = tmp; } }
+        else if (IS("ox", 2)) { int d = slot(f[1], NO); wbxml_tree_node_destroy(uo[d]); uo[d] = NULL; res = "v"; }
+#undef IS
+        printf(" %s", res);
+    }
+    oom_stop();
+    printf(" | "); put_tail(live0); printf(" |");
+    for (i = 0; i < NB; i++) if (ub[i]) { printf(" b%d=%lu:", i, (unsigned long)wbxml_buffer_len(ub[i])); put_buf(ub[i]); printf(":%s", ub_static[i] ? "S" : "D"); }
+    for (i = 0; i < NL; i++) if (ul[i]) { WB_ULONG j; printf(" l%d=[", i);
+        for (j = 0; j < wbxml_list_len(ul[i]); j++) printf("%s%lu", j ? "," : "", (unsigned long)(uintptr_t)wbxml_list_get(ul[i], j)); printf("]"); }
+    for (i = 0; i < NL; i++) if (um[i]) { WB_ULONG j; printf(" m%d=[", i);
+        for (j = 0; j < wbxml_list_len(um[i]); j++) { if (j) printf(","); put_buf(wbxml_list_get(um[i], j)); } printf("]"); }
+    for (i = 0; i < NT; i++) if (ut[i]) { printf(" t%d=", i); put_tagname(ut[i]->type, ut[i]->u.token, U_lang->tagTable, sizeof(WBXMLTagEntry), ut[i]->type == WBXML_VALUE_LITERAL ? ut[i]->u.literal : NULL); }
+    for (i = 0; i < NT; i++) if (un[i]) { printf(" n%d=", i); put_tagname(un[i]->type, un[i]->u.token, U_lang->attrTable, sizeof(WBXMLAttrEntry), un[i]->type == WBXML_VALUE_LITERAL ? un[i]->u.literal : NULL); }
+    for (i = 0; i < NA; i++) if (ua[i]) { printf(" a%d=", i); put_attr(ua[i]); }
+    for (i = 0; i < NO; i++) if (uo[i]) { printf(" o%d=", i); if (!uo[i]->attrs) printf("N"); else { WB_ULONG j; for (j = 0; j < wbxml_list_len(uo[i]->attrs); j++) put_attr(wbxml_list_get(uo[i]->attrs, j)); } }
+    printf("\n");
+    oom_reset();
+}
+
+/* ---- P: parse_element on bytes built from the shapes ---- */
+typedef struct { unsigned char *p; size_t n, cap; } Bld;
+static void bput(Bld *b, const void *x, size_t n) { if (b->n + n + 1 > b->cap) { b->cap = (b->n + n + 1) * 2; b->p = realloc(b->p, b->cap); } memcpy(b->p + b->n, x, n); b->n += n; }
+static void bputc(Bld *b, unsigned c) { unsigned char x = (unsigned char)c; bput(b, &x, 1); }
+static void bput_mb(Bld *b, unsigned long v) { unsigned char o[5]; int i = 4; o[4] = v & 0x7f; v >>= 7; while (v && i > 0) { o[--i] = 0x80 | (v & 0x7f); v >>= 7; } bput(b, o + i, 5 - i); }
+
+static int unused_tag_token(void) { int tk, i; for (tk = 0x3f; tk >= 5; tk--) { for (i = 0; U_lang->tagTable[i].xmlName; i++) if (U_lang->tagTable[i].wbxmlCodePage == 0 && U_lang->tagTable[i].wbxmlToken == tk) break; if (!U_lang->tagTable[i].xmlName) return tk; } return -1; }
+static int unused_attr_token(void) { int tk, i; for (tk = 0x7f; tk >= 5; tk--) { if (tk >= 0x40 && tk <= 0x44) continue; for (i = 0; U_lang->attrTable[i].xmlName; i++) if (U_lang->attrTable[i].wbxmlCodePage == 0 && U_lang->attrTable[i].wbxmlToken == tk) break; if (!U_lang->attrTable[i].xmlName) return tk; } return -1; }
+static int unused_value_token(void) { int tk, i; for (tk = 0xbf; tk >= 0x85; tk--) { for (i = 0; U_lang->attrValueTable[i].xmlName; i++) if (U_lang->attrValueTable[i].wbxmlCodePage == 0 && U_lang->attrValueTable[i].wbxmlToken == tk) break; if (!U_lang->attrValueTable[i].xmlName) return tk; } return -1; }
+
+/* appends a literal name to the string table, returns its index */
+static unsigned long strtbl_add(Bld *st, const char *hex) { size_t n; unsigned char *x = hx_unhex(hex, &n); unsigned long idx = st->n; bput(st, x, n); bputc(st, 0); free(x); return idx; }
+
+static int build_P(char *tag, char *attrs, Bld *body, Bld *st)
+{
+    int has_attrs = strcmp(attrs, "-") != 0;
+    if (tag[0] == 'T') { int row = atoi(tag + 1); if (U_lang->tagTable[row].wbxmlCodePage != 0) return 0; bputc(body, U_lang->tagTable[row].wbxmlToken | (has_attrs ? 0x80 : 0)); }
+    else if (tag[0] == 'U') { int tk = unused_tag_token(); if (tk < 0) return 0; bputc(body, tk | (has_attrs ? 0x80 : 0)); }
+    else if (tag[0] == 'L') { bputc(body, has_attrs ? 0x84 : 0x04); bput_mb(body, strtbl_add(st, tag + 1)); }
+    else return 0;
+    if (has_attrs) {
+        char *a = attrs;
+        while (a) {
+            char *nexta = strchr(a, '|'), *pieces;
+            if (nexta) *nexta++ = 0;
+            pieces = strchr(a, ':'); if (pieces) *pieces++ = 0;
+            if (a[0] == 'T') { char *sl = strchr(a, '/'); int row; const char *want; size_t n = 0; unsigned char *x = NULL;
+                if (!sl) return 0; *sl++ = 0; row = atoi(a + 1);
+                if (U_lang->attrTable[row].wbxmlCodePage != 0) return 0;
+                want = U_lang->attrTable[row].xmlValue;
+                if (strcmp(sl, "N") == 0) { if (want) return 0; }
+                else { x = hx_unhex(sl, &n); if (!want || strlen(want) != n || memcmp(want, x, n)) { free(x); return 0; } free(x); }
+                bputc(body, U_lang->attrTable[row].wbxmlToken); }
+            else if (a[0] == 'U') { int tk = unused_attr_token(); if (tk < 0) return 0; bputc(body, tk); }
+            else if (a[0] == 'L') { bputc(body, 0x04); bput_mb(body, strtbl_add(st, a + 1)); }
+            else return 0;
+            while (pieces && *pieces) {
+                char *np = strchr(pieces, ','); size_t n; unsigned char *x;
+                if (np) *np++ = 0;
+                if (pieces[0] == 'S') { x = hx_unhex(pieces + 1, &n); if (memchr(x, 0, n)) { free(x); return 0; } bputc(body, 0x03); bput(body, x, n); bputc(body, 0); free(x); }
+                else if (pieces[0] == 'D') { x = hx_unhex(pieces + 1, &n); bputc(body, 0xC3); bput_mb(body, n); bput(body, x, n); free(x); }
+                else if (pieces[0] == 'E') { int tk = unused_value_token(); if (tk < 0 || atoi(pieces + 1) != WBXML_ERROR_UNKNOWN_ATTR_VALUE) return 0; bputc(body, tk); }
+                else return 0;
+                pieces = np;
+            }
+            a = nexta;
+        }
+        bputc(body, 0x01);
+    }
+    return 1;
+}
+
+static void do_P(char **t)
+{
+    Bld body = { NULL, 0, 0 }, st = { NULL, 0, 0 }; WBXMLParser *parser; WBXMLError ret; unsigned long live0;
+    oom_reset();
+    if (!build_P(t[4], t[5], &body, &st)) { printf("BADREQ\n"); free(body.p); free(st.p); return; }
+    parser = wbxml_parser_create();
+    parser->wbxml = wbxml_buffer_create_real(body.p, (WB_ULONG)body.n, (WB_ULONG)body.n);
+    parser->strstbl = st.n ? wbxml_buffer_create_real(st.p, (WB_ULONG)st.n, (WB_ULONG)st.n) : NULL;
+    parser->langTable = U_lang; parser->charset = WBXML_CHARSET_UTF_8; parser->version = WBXML_VERSION_13; parser->pos = 0;
+    live0 = oom.live_blocks;
+    oom_window(strtoul(t[2], NULL, 10), strtoul(t[3], NULL, 10));
+    ret = parse_element(parser);
+    oom_stop();
+    printf("R %d | ", (int)ret); put_tail(live0); printf("\n");
+    wbxml_parser_destroy(parser);
+    free(body.p); free(st.p);
+    oom_reset();
+}
+
+/* ---- S: wbxml_strtbl_initialize ---- */
+static void do_S(char **t)
+{
+    WBXMLTree *tree;
+    WBXMLTreeNode *root; WBXMLEncoder *enc; WBXMLError ret; unsigned long live0; char *p = t[4]; WB_ULONG j;
+    oom_reset();
+    tree = wbxml_tree_create(WBXML_LANG_WML13, WBXML_CHARSET_UTF_8);
+    root = wbxml_tree_add_xml_elt(tree, NULL, (WB_UTINY *)"wml");
+    if (strcmp(p, "-")) while (p) {
+        char *np = strchr(p, ','); size_t n; unsigned char *x; WBXMLTreeNode *e;
+        if (np) *np++ = 0;
+        x = hx_unhex(p, &n);
+        e = wbxml_tree_add_xml_elt(tree, root, (WB_UTINY *)"p");
+        /* an empty text cannot be a node (wbxml_tree_add_text refuses it): keep the element empty */
+        if (n) wbxml_tree_add_text(tree, e, x, (WB_ULONG)n);
+        free(x); p = np;
+    }
+    enc = wbxml_encoder_create();
+    wbxml_encoder_set_lang(enc, WBXML_LANG_WML13);
+    live0 = oom.live_blocks;
+    oom_window(strtoul(t[2], NULL, 10), strtoul(t[3], NULL, 10));
+    ret = wbxml_strtbl_initialize(enc, tree->root);
+    oom_stop();
+    printf("R %d | ", (int)ret); put_tail(live0); printf(" | tbl=");
+    if (!enc->strstbl) printf("N"); else if (wbxml_list_len(enc->strstbl) == 0) printf("-");
+    else for (j = 0; j < wbxml_list_len(enc->strstbl); j++) { WBXMLStringTableElement *e = wbxml_list_get(enc->strstbl, j); if (j) printf(","); put_buf(e->string); }
+    printf(" len=%lu\n", (unsigned long)enc->strstbl_len);
+    wbxml_encoder_destroy(enc); wbxml_tree_destroy(tree);
+    oom_reset();
+}
+
+/* ---- T: wbxml_tree_to_wbxml on an element-only tree "(row(row)(row))" ---- */
+static const char *parse_tree_desc(const char *p, WBXMLTree *tree, WBXMLTreeNode *parent)
+{
+    while (*p == '(') {
+        WBXMLTreeNode *n = wbxml_tree_node_create(WBXML_TREE_ELEMENT_NODE);
+        int row = atoi(++p);
+        while (*p >= '0' && *p <= '9') p++;
+        n->name = wbxml_tag_create_token(&U_lang->tagTable[row]);
+        wbxml_tree_add_node(tree, parent, n);
+        p = parse_tree_desc(p, tree, n);
+        if (*p == ')') p++;
+    }
+    return p;
+}
+
+static void do_T(char **t)
+{
+    WBXMLTree *tree; WBXMLGenWBXMLParams params; WB_UTINY *out = NULL; WB_ULONG len = 0; WBXMLError ret; unsigned long live0;
+    oom_reset();
+    tree = wbxml_tree_create(WBXML_LANG_WML13, WBXML_CHARSET_UTF_8);
+    parse_tree_desc(t[7], tree, NULL);
+    params.wbxml_version = (WBXMLVersion)atoi(t[5]); params.keep_ignorable_ws = FALSE;
+    params.use_strtbl = atoi(t[4]) ? TRUE : FALSE; params.produce_anonymous = FALSE;
+    if ((unsigned long)atoi(t[6]) != U_lang->publicID->wbxmlPublicID) { printf("BADREQ\n"); wbxml_tree_destroy(tree); oom_reset(); return; }
+    live0 = oom.live_blocks;
+    oom_window(strtoul(t[2], NULL, 10), strtoul(t[3], NULL, 10));
+    ret = wbxml_tree_to_wbxml(tree, &out, &len, &params);
+    oom_stop();
+    printf("R %d | ", (int)ret); put_tail(live0); printf(" | out=");
+    if (!out) printf("N"); else hx_out(stdout, out, len);
+    printf("\n");
+    if (out) wbxml_free(out);
+    wbxml_tree_destroy(tree);
+    oom_reset();
+}
+
+static int unit_main(void)
+{
+    char *line;
+    U_lang = wbxml_tables_get_table(WBXML_LANG_WML13);
+    setvbuf(stdout, NULL, _IOLBF, 0);
+    while ((line = hx_getline(stdin))) {
+        char *t[512]; int nt = 0; char *p = strtok(line, " ");
+        while (p && nt < 512) { t[nt++] = p; p = strtok(NULL, " "); }
+        if (nt >= 4 && !strcmp(t[0], "OOM") && !strcmp(t[1], "U")) do_U(t, nt);
+        else if (nt == 6 && !strcmp(t[0], "OOM") && !strcmp(t[1], "P")) do_P(t);
+        else if (nt == 5 && !strcmp(t[0], "OOM") && !strcmp(t[1], "S")) do_S(t);
+        else if (nt == 9 && !strcmp(t[0], "OOM") && !strcmp(t[1], "T")) do_T(t);
+        else if (nt == 2 && !strcmp(t[0], "OOM") && !strcmp(t[1], "INFO")) {
+            /* page-0 rows of the WML 1.3 tables the P and T verbs may name */
+            int i, any = 0;
+            printf("INFO pubid=%lu tags=", (unsigned long)U_lang->publicID->wbxmlPublicID);
+            for (i = 0; U_lang->tagTable[i].xmlName; i++) if (U_lang->tagTable[i].wbxmlCodePage == 0) { printf("%s%d", any ? "," : "", i); any = 1; }
+            printf(" attrs="); any = 0;
+            for (i = 0; U_lang->attrTable[i].xmlName; i++) if (U_lang->attrTable[i].wbxmlCodePage == 0) {
+                printf("%s%d/", any ? "," : "", i); any = 1;
+                if (U_lang->attrTable[i].xmlValue) hx_outs(stdout, U_lang->attrTable[i].xmlValue); else printf("N"); }
+            printf(" tagtokens="); any = 0;
+            for (i = 0; U_lang->tagTable[i].xmlName; i++) if (U_lang->tagTable[i].wbxmlCodePage == 0) { printf("%s%d:%d", any ? "," : "", i, U_lang->tagTable[i].wbxmlToken); any = 1; }
+            printf("\n");
+        }
+        else puts("BADVERB");
+        free(line);
+    }
+    return 0;
+}
 
 int main(int argc, char **argv)
 {
